@@ -45,7 +45,7 @@ def run(ctx):
         big = range(65, 1025) if thorough else sorted(rnd.sample(range(65, 1025), 10) + [1023, 1024])
         for n in big:
             cases.add((m, 1 if n % 2 else 0, 0, n))
-        for iv in (0, 1, 2):
+        for iv in (0, 1, 2, 3, 4, 5, 6):
             for n in BEH_LENS:
                 cases.add((m, iv, 0, n))
     cases = sorted(c + (7,) for c in cases)
@@ -110,7 +110,7 @@ def run(ctx):
                   for x in rows if x["case"]["key"] == 7 and x["case"]["fam"] == 0 and x["case"]["len"] in BEH_LENS])
     nsim = 1500 if thorough else 150
     with open(os.path.join(d, "msim.cfg"), "w") as f:
-        f.write('SPECIFICATION Spec\nCONSTANTS\n ModeSet = {"ecb", "cbc", "cfb", "ofb"}\n IvIds = {0, 1, 2}\n LenSet = {%s}\n MaxOps = 6\nCONSTRAINT Emit\n'
+        f.write('SPECIFICATION Spec\nCONSTANTS\n ModeSet = {"ecb", "cbc", "cfb", "ofb"}\n IvIds = {0, 1, 2, 3, 4, 5, 6}\n LenSet = {%s}\n MaxOps = 6\nCONSTRAINT Emit\n'
                 % ", ".join(map(str, BEH_LENS)))
     r = ctx.tlc("Modes", "msim.cfg", workers=1, simulate="num=%d" % nsim, depth=7, timeout=1500)
     behs = markers(r["out"], "BEH")
